@@ -184,17 +184,19 @@ func c17r3(r *R) {
 	n := 0
 	for _, fn := range c.FuncsIn(appPkgs...) {
 		for _, s := range callsIn(fn, "(*crypto/tls.Conn).HandshakeContext") {
-			n++
-			e := c.Expr(callOf(s).Args[1])
-			o := r.Ob("C17.R3", "handshake-under-server-context:"+funcName(fn)+":"+e).AtI(s)
-			o.Check(e == "p0.ctx" || strings.HasPrefix(e, "context.WithTimeout(p0.ctx, ") || strings.HasPrefix(e, "context.WithDeadline(p0.ctx, ") || strings.HasPrefix(e, "context.WithCancel(p0.ctx)"),
-				"handshake context %s is not derived from the server context: a connection accepted around cancellation would still be served", e)
+			for _, vc := range c.valueCases(callOf(s).Args[1], s.Block()) {
+				n++
+				e := vc.E
+				o := r.Ob("C17.R3", "handshake-under-server-context:"+funcName(fn)+":"+e).AtI(s)
+				o.Check(e == "p0.ctx" || strings.HasPrefix(e, "context.WithTimeout(p0.ctx, ") || strings.HasPrefix(e, "context.WithDeadline(p0.ctx, ") || strings.HasPrefix(e, "context.WithCancel(p0.ctx)"),
+					"handshake context %s is not derived from the server context: a connection accepted around cancellation would still be served", e)
+			}
 		}
 		for _, s := range callsIn(fn, "(*crypto/tls.Conn).Handshake") {
 			r.Ob("C17.R3", "handshake-without-context:"+funcName(fn)).AtI(s).Fail("Handshake() ignores server shutdown")
 		}
 	}
-	r.Ob("C17.R3", "instances").Check(n >= 2, "expected >= 2 HandshakeContext sites, found %d", n)
+	r.Ob("C17.R3", "instances").Check(n >= 2, "expected >= 2 HandshakeContext cases, found %d", n)
 }
 
 func c17r4(r *R) {
